@@ -20,8 +20,6 @@ Fixpoint cache_next (c : chain) : bool :=
   | _ => false
   end.
 
-(** A cache directly on top of another cache (nothing but pass-through layers between them) is
-    outside the model: [cbuild] answers [None] and the harness does not build such stacks. *)
 Fixpoint cbuild (c : chain) (ks : list cctor) : option chain :=
   match ks with
   | [] => Some c
@@ -30,5 +28,5 @@ Fixpoint cbuild (c : chain) (ks : list cctor) : option chain :=
     | Some c' => cbuild c' ks'
     | None => None
     end
-  | CKCache :: ks' => if cache_next c then None else cbuild (LCache :: c) ks'
+  | CKCache :: ks' => cbuild (LCache :: c) ks'
   end.
